@@ -43,12 +43,14 @@ def pool(kind: str, rng: random.Random):
     if kind == "unit":
         return [T.PintUnit(x) if rng.random() < 0.4 else x
                 for x in rng.sample(["meter", "kilogram / second ** 2", "candela * meter", "1 / second", "kelvin",
-                                     "1 / meter", "1 / meter ** 2"], 2)]
+                                     "1 / meter", "1 / meter ** 2",
+                                     # prefixed units whose abbreviation would spell another unit (kt, min, cd, Pa)
+                                     "kilotonne", "milliinch", "centiday", "petayear", "micrometer"], 2)]
     if kind == "quantity":
         return [T.PintQuantity(x) if rng.random() < 0.4 else x
                 # (-1 and -2 have the same Python hash)
                 for x in rng.sample(["5 meter", "7.12 kilogram / second ** 2", "0 second", "1e-09 meter", "-3 kelvin", "2.5 1 / second",
-                                     "-1 meter", "-2 meter"], 2)]
+                                     "-1 meter", "-2 meter", "5 kilotonne", "3 milliinch", "2 centiday / second"], 2)]
     if kind == "literal":
         return ["a", "b"]
     if kind == "url":
